@@ -142,15 +142,21 @@ structure RecLP where
   solveRes : Int
   obj : List (Nat × Rat)
   rows : List (List (Nat × Rat) × Nat × Rat)
+  results : List Int        -- result of every ::solve call, in order
+  point : List Rat          -- all columns of the point LP::solve read (empty unless the last result was 0/1)
 
 def pEnt : P (Nat × Rat) := do let c ← P.nat; let q ← P.q; pure (c, q)
 def pRec : P RecLP := do
   let ncols ← P.int; let nunb ← P.nat; let minim ← P.int; let solves ← P.nat; let solveRes ← P.int
   let obj ← P.list pEnt
   let rows ← P.list (do let e ← P.list pEnt; let rel ← P.nat; let rhs ← P.q; pure (e, rel, rhs))
-  pure ⟨ncols, nunb, minim, solves, solveRes, obj, rows⟩
+  let results ← P.list P.int
+  let point ← P.qs
+  pure ⟨ncols, nunb, minim, solves, solveRes, obj, rows, results, point⟩
 
 /-! ## comparison of the generated LP with the recorded one -/
+
+def maxAbs (l : List Rat) : Rat := l.foldl (fun m q => if m < absQ q then absQ q else m) 0
 
 def insEnt (e : Nat × Rat) : List (Nat × Rat) → List (Nat × Rat)
   | [] => [e]
@@ -175,8 +181,19 @@ def rowsDiff : Nat → List CRow → List (List (Nat × Rat) × Nat × Rat) → 
     else rowsDiff (i+1) ms rs
   | i, ms, rs => some s!"row_count model={i + ms.length} impl={i + rs.length}"
 
-def lpDiff (comp : String) (v : Verdict) (gen : List CRow × Nat) (obj : List (Nat × Rat)) (rec : RecLP) : Verdict :=
-  let v := v.diffIf (rec.solves != 1) s!"{comp}.lp solve_calls={rec.solves}"
+def lpDiff (comp : String) (v : Verdict) (gen : List CRow × Nat) (obj : List (Nat × Rat)) (rec : RecLP) (gotPoint : Bool) (w : List Rat) : Verdict :=
+  -- LP::solve's control flow (model `lpSolveTraceOk`, result codes from the translator) against the recorded ::solve calls
+  let v := v.diffIf (!lpSolveTraceOk AITB.Gen.lpRetryCodes AITB.Gen.lpAcceptCodes rec.results gotPoint || rec.solves != rec.results.length)
+    s!"LpSolveWrapper.solve call_trace results={rec.results} returned_point={gotPoint} retry_codes={AITB.Gen.lpRetryCodes} accept_codes={AITB.Gen.lpAcceptCodes}"
+  let v := { v with tag := v.tag ++ (if rec.results.length > 1 then " lp_retry" else "") }
+  -- the point lp_solve handed back (all columns): right length, its first columns ARE the returned weights, and it satisfies
+  -- every row of the generated LP (so a wrong answer is attributed: lp_solve's point vs the rows the library built)
+  let v := v.diffIf (gotPoint && rec.point.length != gen.2) s!"LpSolveWrapper.solve point_length={rec.point.length} columns={gen.2}"
+  let v := v.diffIf (gotPoint && rec.point.take w.length != w) s!"LpSolveWrapper.solve returned_vector_is_not_the_leading_columns_of_the_point"
+  let ptol := (1 / 10^6) * (1 + maxAbs rec.point)
+  let v := match (if gotPoint && rec.point.length == gen.2 then gen.1.zipIdx.find? (fun (r, _) => !r.satB ptol (fun c => rec.point.getD c 0)) else none) with
+    | some (r, i) => v.failIf true s!"LpSolveWrapper accepted_point_violates_row row={i} lhs={ratStr (lhs (fun c => rec.point.getD c 0) r.ent)} rhs={ratStr r.rhs} results={rec.results}"
+    | none => v
   let v := v.diffIf (rec.ncols != (gen.2 : Int)) s!"{comp}.lp columns model={gen.2} impl={rec.ncols}"
   let v := v.diffIf (rec.nunb != gen.2) s!"{comp}.lp unbounded_columns model={gen.2} impl={rec.nunb}"
   let v := v.diffIf (rec.minim != 1) s!"{comp}.lp not_minimising {rec.minim}"
@@ -187,8 +204,6 @@ def lpDiff (comp : String) (v : Verdict) (gen : List CRow × Nat) (obj : List (N
   | none => v
 
 def tol7 : Rat := 1 / 10^7
-
-def maxAbs (l : List Rat) : Rat := l.foldl (fun m q => if m < absQ q then absQ q else m) 0
 
 /-! ## `flp S addConst C b | (some w | none - | err cls) | rec` -/
 def flp : P String := do
@@ -203,7 +218,7 @@ def flp : P String := do
   let v : Verdict := { tag := (if (allActs S).length ≤ 1 then "trivial " else "") ++ "flp" ++ (if addConst then " const" else "") ++ (if C.isEmpty then " nobasis" else "") }
   -- model of the constraint generation vs the LP the library built
   let phi := flpPhi C addConst
-  let v := lpDiff "FactoredLP" v (flpGenD AITB.Gen.flpEmptyConstDelegates S C b addConst) [(phi, 1)] rec
+  let v := lpDiff "FactoredLP" v (flpGenD AITB.Gen.flpEmptyConstDelegates S C b addConst) [(phi, 1)] rec (st == "some") w
   match simplex n rows c with
   | .fuel => return "skip simplex_fuel"
   | .infeasible => return "skip flat_lp_without_optimum"       -- cannot happen: φ large is feasible, φ ≥ 0
@@ -268,7 +283,7 @@ def mdp : P String := do
   -- hypothesis `NoTiny` (no entry in (0, 1e-6]) — only reported
   let tiny := (h.any (fun f => f.vals.any (fun q => isZeroSmall q && q != 0))) || ((gModel ++ R).any (fun f => f.vals.any (fun q => isZeroSmall q && q != 0)))
   let v := { v with tag := v.tag ++ (if tiny then " tiny_entries" else "") }
-  let v := lpDiff "LinearProgramming" v gen ((mdpStatedObj h).zipIdx.map (fun (q, i) => (i, q))) rec
+  let v := lpDiff "LinearProgramming" v gen ((mdpStatedObj h).zipIdx.map (fun (q, i) => (i, q))) rec (st == "some") w
   -- the objective the code states (Σ_k mean(h_k.values) w_k) is the flat objective Σ_s V_w(s)/|S|: decided exactly here
   let v := v.diffIf (mdpFlatObj S h != c) "LinearProgramming.lp stated_objective_is_not_the_uniform_flat_objective"
   let sfx := if multi then "_multi_component" else ""
